@@ -6,6 +6,7 @@ echo "# Seeded changes applied to /repo itself (git -C /repo apply; quick check;
 echo >> $OUT; echo "| seed | check exit | VIOLATION lines |" >> $OUT; echo "|---|---|---|" >> $OUT
 for d in seeded/C*-*/; do
   s=$(basename $d); p=${s%%-*}
+  [ -f $d/patch.diff ] || { echo "| $s | obsolete (see meta.json) | |" >> $OUT; continue; }
   [ -n "$(git -C /repo status --porcelain --untracked-files=no)" ] && { echo "repo dirty, abort"; exit 1; }
   git -C /repo apply $d/patch.diff || { echo "| $s | patch does not apply | |" >> $OUT; continue; }
   VERIF_OUT=/verif/.cache/onrepo-out python3 verif.py check $p > /verif/.cache/onrepo.log 2>&1; rc=$?
